@@ -27,6 +27,7 @@ from vgi_rpc.metadata import (
     REQUEST_VERSION,
     REQUEST_VERSION_KEY,
     RPC_METHOD_KEY,
+    SEMVER_REGEX,
     SERVER_ID_KEY,
     SHM_OFFSET_KEY,
     SHM_SEGMENT_NAME_KEY,
@@ -699,6 +700,15 @@ class RpcServer:
                 f"  Server: {server_version}\n"
                 f"  Direction: client sent non-UTF-8 protocol_version metadata."
             ) from exc
+        # Canonical spellings are unique, so a textual major+minor comparison is exact.  It admits a matching
+        # version before any component is converted: the ignored patch may be longer than the interpreter's
+        # int-from-string digit limit, which would otherwise surface below as "malformed".
+        canonical = SEMVER_REGEX.match(client_version)
+        if canonical is not None and (canonical.group(1), canonical.group(2)) == (
+            str(server_parts[0]),
+            str(server_parts[1]),
+        ):
+            return
         try:
             client_parts = parse_version(client_version)
         except ValueError as exc:
